@@ -47,6 +47,8 @@ package dns
 //@ func (*ServeMux).match [C14]
 //@   opt opaque = sep nsep escd
 //@   requires mux != nil
+//@   assert at "return handler" noroot: !maphas(mux.z, ".")
+//@   exit rootwins: mux.z != nil && t == TypeDS && maphas(mux.z, ".") ==> ret0 == mapget(mux.z, ".")
 //@   assert at "if t != TypeDS {" hit: maphas(mux.z, q[off:]) && (off == 0 || sep(q, off - 1))
 //@   assert at "if t != TypeDS {" first: t != TypeDS ==> (forall p in 0..off :: (p == 0 || sep(q, p - 1)) ==> !maphas(mux.z, q[p:]))
 //@   loop 1 invariant bnd: 0 <= off && len(q) > 0 && (!end ==> off == 0 || (off <= len(q) - 1 && sep(q, off - 1)))
